@@ -414,6 +414,38 @@ def derived_tie(ctx, model, cfg, A, res):
                      note=f"form {form}: the model applied to the measured operand closures differs from the implementation")
 
 
+INDEX_MAP_CLASSES = ("Slice", "Crop", "Pad", "Transpose", "Reshape", "Sum")
+
+
+def index_map_tie(ctx, model, cfg, A, res):
+    """Slice / Crop / zero Pad / Transpose / Reshape read the input along an index map, Sum adds along one: the map is read
+    off ONE evaluation on the probe 1..n (Sum: of the adjoint on 1..m) and the model `Op.imap` / `Op.scatFill .. 1`
+    (theorems C01_index_map, C01_xray_backproject) must reproduce eval AND adj on all basis vectors"""
+    in_shape, out_shape = D.norm_shape(A.input_shape), D.norm_shape(A.output_shape)
+    n, m = D.flat_size(in_shape), D.flat_size(out_shape)
+    with warnings.catch_warnings():
+        warnings.simplefilter("ignore")
+        if cfg["cls"] == "Sum":
+            v = D.flatten(A.adj(D.unflatten(np.arange(1, m + 1, dtype=np.float64), out_shape, A.output_dtype)))
+            kind, bound = "scatter", m
+        else:
+            v = D.flatten(A(D.unflatten(np.arange(1, n + 1, dtype=np.float64), in_shape, A.input_dtype)))
+            kind, bound = "gather", n
+    v = np.real(v)
+    if not np.all(v == np.round(v)) or np.any(v < 0) or np.any(v > bound):
+        ctx.disagree("adjoint.index_map", {"cfg": cfg}, {"probe": D._js(v)}, "an index map", oracle=make_oracle(),
+                     note="the operator does not act as an index map on the probe vector")
+        return
+    phi = [int(t) - 1 if t >= 1 else bound for t in v]
+    leaf = {"t": "imap", "n": n, "m": m, "phi": phi, "kind": kind}
+    cin, cout = D.is_complex(A.input_dtype), D.is_complex(A.output_dtype)
+    diff = compare_model(model, [leaf], {"k": "leaf", "i": 0}, res, cin, cout)
+    ctx.count("index-map-tie:" + cfg["cls"])
+    if diff is not None:
+        ctx.disagree("adjoint.index_map", {"cfg": cfg}, {"impl": "dense matrices of eval / adj"}, diff, oracle=make_oracle(),
+                     note="index-map model (gather / scatter along phi) differs from the implementation")
+
+
 def classify_known(ctx, model, cfg, A, res, view=None):
     """slug of the known finding a failed obligation is an instance of (structural predicate on the configuration
     AND on the kind of failure), or None"""
@@ -474,6 +506,8 @@ def run_config(ctx, model, cfg, rng, views=False, stream="grid"):
         stack_tie(ctx, model, cfg, A, res, rng)
     if cfg["cls"] == "Derived" and res.get("RA") is not None and res["ok"]:
         derived_tie(ctx, model, cfg, A, res)
+    if cfg["cls"] in INDEX_MAP_CLASSES and res.get("RA") is not None and res["ok"] and not meta.get("empty_space"):
+        index_map_tie(ctx, model, cfg, A, res)
     if not res["ok"]:
         known = known or classify_known(ctx, model, cfg, A, res)
         ctx.count("obligation-failed:" + "+".join(sorted({t for t, _ in res["fails"]})))
